@@ -325,6 +325,14 @@ def build_app(cfg):
         async def on_oserror(req, resp, ex, params, ws=None):
             holder['env'].log.append(('handler', type(ex).__name__))
         app.add_error_handler(OSError, on_oserror)
+    # the app object has a past: it has already served one connection under ANOTHER queue capacity; the capacity in
+    # force is the one configured when a connection is accepted, not the one of the app's first handshake
+    app.ws_options.max_receive_queue = cfg['cap'] + 2
+    try:
+        run_one(dict(cfg, k=0, disc=True, cap=cfg['cap'] + 2), choice.Chooser(()), (app, holder))
+    except Violation:
+        pass
+    app.ws_options.max_receive_queue = cfg['cap']
     return app, holder
 
 
